@@ -19,8 +19,9 @@ import (
 // ---------------------------------------------------------------------------
 
 type sliceRes struct {
-	Vals   map[ssa.Value]bool
-	Instrs map[ssa.Instruction]bool
+	Vals    map[ssa.Value]bool
+	Instrs  map[ssa.Instruction]bool
+	accSeen map[*ssa.Alloc]bool
 }
 
 type slicer struct {
@@ -67,6 +68,42 @@ func (s *slicer) stores(fn *ssa.Function) map[string][]*ssa.Store {
 func (s *slicer) Slice(v ssa.Value) *sliceRes {
 	res := &sliceRes{Vals: map[ssa.Value]bool{}, Instrs: map[ssa.Instruction]bool{}}
 	s.walk(v, res, 0)
+	return res
+}
+
+// SliceFrom: the slice of v extended upwards through helper parameters — when the value lives in a
+// helper that root (transitively) calls and depends on one of the helper's parameters, the
+// arguments at the call sites inside root's static reach are part of the slice as well.
+func (s *slicer) SliceFrom(v ssa.Value, root *ssa.Function) *sliceRes {
+	res := s.Slice(v)
+	reach := s.p.staticReach(root)
+	reach[root] = true
+	done := map[*ssa.Parameter]bool{}
+	for round := 0; round < 4; round++ {
+		var todo []*ssa.Parameter
+		for x := range res.Vals {
+			if par, ok := x.(*ssa.Parameter); ok && !done[par] && par.Parent() != root && reach[par.Parent()] {
+				todo = append(todo, par)
+			}
+		}
+		if len(todo) == 0 {
+			break
+		}
+		for _, par := range todo {
+			done[par] = true
+			h := par.Parent()
+			pi := paramIndex(h, par)
+			for g := range reach {
+				allInstrs(g, func(in ssa.Instruction) {
+					c, ok := in.(ssa.CallInstruction)
+					if !ok || staticCallee(c) != h || pi >= len(c.Common().Args) {
+						return
+					}
+					s.walk(c.Common().Args[pi], res, 0)
+				})
+			}
+		}
+	}
 	return res
 }
 
@@ -164,6 +201,49 @@ func (s *slicer) followAllocUse(al *ssa.Alloc, in ssa.Instruction, res *sliceRes
 		if allocBase(x.Addr) == al {
 			res.Instrs[x] = true
 			s.walk(x.Val, res, depth)
+		}
+	case ssa.CallInstruction, *ssa.MakeInterface, *ssa.ChangeInterface:
+		// an accumulator object filled through methods of a package outside the module
+		// (var b strings.Builder; b.WriteString(x); … b.String() — or enc := xml.NewEncoder(&buf);
+		// enc.Encode(v); … buf.Bytes()): what is written into it, directly or through a handle
+		// derived from it, is what can later be read from it
+		if res.accSeen == nil {
+			res.accSeen = map[*ssa.Alloc]bool{}
+		}
+		if res.accSeen[al] {
+			return
+		}
+		res.accSeen[al] = true
+		var calls []ssa.CallInstruction
+		forwardFlow(al, func(u ssa.Instruction) bool {
+			switch y := u.(type) {
+			case *ssa.MakeInterface, *ssa.ChangeInterface:
+				return true
+			case ssa.CallInstruction:
+				if cal := staticCallee(y); cal != nil && s.p.inModule(cal) {
+					return false
+				}
+				calls = append(calls, y)
+				// continue only through handles (an encoder / writer wrapping the object), not
+				// through data read out of it
+				if v, ok := u.(ssa.Value); ok {
+					switch v.Type().Underlying().(type) {
+					case *types.Pointer, *types.Interface:
+						return true
+					}
+				}
+				return false
+			}
+			return false
+		})
+		for _, c := range calls {
+			if v, ok := c.(ssa.Value); ok {
+				res.Vals[v] = true
+			}
+			res.Instrs[c] = true
+			for _, a := range c.Common().Args {
+				s.walk(a, res, depth)
+			}
 		}
 	case *ssa.IndexAddr:
 		if refs := x.Referrers(); refs != nil {
